@@ -13,6 +13,7 @@ import (
 	"os/exec"
 	"runtime"
 	"syscall"
+	"time"
 
 	"potano.layercake/fs"
 )
@@ -46,7 +47,24 @@ type scanUser struct {
 	File   string `json:"file"` // hex
 }
 
-func scanToOut(layersdir string) (out scanOut) {
+// Hung counts scans that did not answer within the wall-clock limit (reported like a panic).
+var Hung int
+
+const scanLimit = 20 * time.Second
+
+func scanToOut(layersdir string) scanOut {
+	ch := make(chan scanOut, 1)
+	go func() { ch <- scanNow(layersdir) }()
+	select {
+	case out := <-ch:
+		return out
+	case <-time.After(scanLimit):
+		Hung++
+		return scanOut{Panic: true, Msg: "no answer within " + scanLimit.String()}
+	}
+}
+
+func scanNow(layersdir string) (out scanOut) {
 	defer func() {
 		if e := recover(); e != nil {
 			out = scanOut{Panic: true, Msg: fmt.Sprint(e)}
@@ -75,7 +93,7 @@ func init() {
 		// helper run under strace: one scan, result as JSON.  The main goroutine is wired to
 		// the main thread so that strace's per-thread `when=` counters are deterministic.
 		runtime.LockOSThread()
-		b, _ := json.Marshal(scanToOut(os.Args[3]))
+		b, _ := json.Marshal(scanNow(os.Args[3]))
 		os.Stdout.Write(b)
 		os.Exit(0)
 	}
